@@ -503,13 +503,14 @@ class ExprMixin:
     def getattr(self, v, attr, st, node):
         if isinstance(v, VObj):
             flds = st.heap.get(v.oid, {})
-            if attr in flds:
-                return [(st, flds[attr])]
             h = self.hooks.get('getattr:' + v.cls)
             if h:
+                # the hook sees every attribute read (typestate / lock-discipline obligations); None = not handled
                 r = h(self, v, attr, st, node)
                 if r is not None:
                     return r
+            if attr in flds:
+                return [(st, flds[attr])]
             key, m = self.src.method(v.cls, attr)
             if m is not None:
                 if any(isinstance(d, ast.Name) and d.id == 'property' for d in m.decorator_list):
